@@ -19,6 +19,9 @@ import (
 	"math/rand"
 	"sort"
 	"strings"
+	"sync"
+	"sync/atomic"
+	"time"
 
 	"github.com/pinealctx/neptune/remap"
 	"verifharness/vh"
@@ -45,6 +48,7 @@ type spec struct {
 	Rem      *remSpec   `json:"rem,omitempty"`   // kind = rem
 	Stat     *statSpec  `json:"stat,omitempty"`  // kind = stat
 	First    *firstSpec `json:"first,omitempty"` // kind = first
+	Churn    *churnSpec `json:"churn,omitempty"` // kind = churn
 }
 
 func (s spec) replayArg() string {
@@ -309,6 +313,11 @@ func genSeq(rnd *rand.Rand, variant, class string, length int) spec {
 	if variant == "tiny" && class == "malformed" {
 		s.Cap = pick(rnd, []int64{-1, -2, 0, 1, 3})
 	}
+	if p := cur.Load(); p != nil {
+		p.mu.Lock()
+		p.cap, p.hasCap = s.Cap, true
+		p.mu.Unlock()
+	}
 	live := newLRU(variant, s.Cap, s.KK, s.Facade)
 	for i := 0; i < length; i++ {
 		o := g.next(live)
@@ -565,6 +574,7 @@ type tally struct {
 	heldSlices, remRounds, remAnomalies                                                   int
 	statRounds, statReads, statAnomalies                                                  int
 	firstBatches, firstTrials, firstAnomalies                                             int
+	churnRounds, hungUnits                                                                int
 	siaRounds, siaAnomalies                                                               int
 }
 
@@ -647,19 +657,28 @@ func tallySeq(s spec, steps []seqStep) {
 
 // ---- main -------------------------------------------------------------------------------------------------
 
-func emitSpec(e *vh.Env, s spec, unresolved *int) {
+// produce runs one unit (a history, a round, a batch) on the real implementation and returns its cases
+func produce(s spec, unresolved *int) (out []vh.Case) {
 	switch s.Kind {
 	case "seq":
 		steps, held := runSeq(s)
 		tallySeq(s, steps)
-		e.Emit(seqCase(s, steps, held))
+		out = append(out, seqCase(s, steps, held))
 	case "wide":
 		steps := runWide(s)
 		stat.ops += len(steps)
 		stat.shardHist[fmt.Sprintf("shards=%d", s.N)]++
-		e.Emit(wideCase(s, steps))
+		out = append(out, wideCase(s, steps))
 	case "first":
-		e.Emit(firstCase(*s.First))
+		out = append(out, firstCase(*s.First))
+	case "churn":
+		n := s.Attempts
+		if n == 0 {
+			n = 1
+		}
+		for i := 0; i < n; i++ {
+			out = append(out, churnCase(*s.Churn))
+		}
 	case "stat":
 		n := s.Attempts
 		if n == 0 {
@@ -668,7 +687,7 @@ func emitSpec(e *vh.Env, s spec, unresolved *int) {
 		for i := 0; i < n; i++ {
 			c := statCase(*s.Stat)
 			c.Replay = spec{Kind: "stat", Stat: s.Stat}.replayArg()
-			e.Emit(c)
+			out = append(out, c)
 		}
 	case "rem":
 		n := s.Attempts
@@ -678,7 +697,7 @@ func emitSpec(e *vh.Env, s spec, unresolved *int) {
 		for i := 0; i < n; i++ {
 			c := remCase(*s.Rem)
 			c.Replay = spec{Kind: "rem", Rem: s.Rem}.replayArg()
-			e.Emit(c)
+			out = append(out, c)
 		}
 	case "sia":
 		n := s.Attempts
@@ -688,7 +707,7 @@ func emitSpec(e *vh.Env, s spec, unresolved *int) {
 		for i := 0; i < n; i++ {
 			c := siaCase(*s.Sia)
 			c.Replay = spec{Kind: "sia", Sia: s.Sia}.replayArg()
-			e.Emit(c)
+			out = append(out, c)
 		}
 	case "burst":
 		n := s.Attempts
@@ -698,7 +717,7 @@ func emitSpec(e *vh.Env, s spec, unresolved *int) {
 		for i := 0; i < n; i++ {
 			c := burstCase(*s.Burst)
 			c.Replay = spec{Kind: "burst", Burst: s.Burst}.replayArg()
-			e.Emit(c)
+			out = append(out, c)
 		}
 	case "conc":
 		n := s.Attempts
@@ -711,9 +730,128 @@ func emitSpec(e *vh.Env, s spec, unresolved *int) {
 				*unresolved++
 				continue
 			}
-			e.Emit(c)
+			out = append(out, c)
 		}
 	}
+	return
+}
+
+// ---- calls that never return --------------------------------------------------------------------------------
+// Every unit runs under a watchdog.  The calls of the caches take microseconds; if no call of the unit completes for
+// hangBound seconds (a generous upper bound on steps the model says must complete - not a way to infer quiescence), the
+// unit is reported as a CHung case (the calls issued so far, for sequential histories) and abandoned, its class is given up;
+// after maxHung such units the run stops generating, so that a broken implementation cannot stall the check.
+
+const (
+	hangBound = 20 // seconds without any completed call
+	maxHung   = 6  // over the whole run; a class is given up after its first blocked call
+)
+
+var (
+	heartbeat int64
+	cur       atomic.Pointer[progress]
+	aborted   bool
+	givenUp   = map[string]bool{} // classes in which a call blocked
+)
+
+type progress struct {
+	mu     sync.Mutex
+	record bool
+	ops    []opRec
+	cap    int64 // capacity of the cache the unit built, when it chose it itself
+	hasCap bool
+}
+
+func beat() { atomic.AddInt64(&heartbeat, 1) }
+
+func noteCall(o opRec) {
+	if p := cur.Load(); p != nil && p.record && o.Code <= opSetCapacity {
+		p.mu.Lock()
+		p.ops = append(p.ops, o)
+		p.mu.Unlock()
+	}
+}
+
+func guard(e *vh.Env, variant string, capacity int64, class string, record bool, fn func() []vh.Case) {
+	if aborted || givenUp[class] {
+		return
+	}
+	p := &progress{record: record}
+	cur.Store(p)
+	done := make(chan []vh.Case, 1)
+	go func() { done <- fn() }()
+	last, idle := atomic.LoadInt64(&heartbeat), 0
+	tick := time.NewTicker(time.Second)
+	defer tick.Stop()
+	for {
+		select {
+		case cs := <-done:
+			cur.Store(nil)
+			for _, c := range cs {
+				e.Emit(c)
+			}
+			return
+		case <-tick.C:
+			if hb := atomic.LoadInt64(&heartbeat); hb != last {
+				last, idle = hb, 0
+				continue
+			}
+			idle++
+			if idle < hangBound {
+				continue
+			}
+			cur.Store(nil)
+			p.mu.Lock()
+			ops := append([]opRec(nil), p.ops...)
+			if p.hasCap {
+				capacity = p.cap
+			}
+			p.mu.Unlock()
+			xs := make([]string, len(ops))
+			ds := make([]string, len(ops))
+			for i, o := range ops {
+				xs[i] = coqOp(o)
+				ds[i] = descOp(o)
+			}
+			stat.hungUnits++
+			givenUp[class] = true
+			e.Emit(vh.Case{Coq: fmt.Sprintf("(CHung %s %s [] [%s])%%Z", coqVariant(variant), z(capacity), strings.Join(xs, "; ")), Class: class, Nontrivial: true,
+				Desc: map[string]interface{}{"kind": "a call did not return", "cache": variant, "capacity": capacity, "class": class,
+					"what":                            fmt.Sprintf("no call completed for %d s (calls take microseconds); the last call issued, or an accessor after it, is blocked", hangBound),
+					"calls_issued_on_the_fresh_cache": ds}})
+			if stat.hungUnits >= maxHung {
+				aborted = true
+			}
+			return
+		}
+	}
+}
+
+func specVC(s spec) (string, int64) {
+	switch {
+	case s.Burst != nil:
+		return s.Burst.Variant, s.Burst.Cap
+	case s.Sia != nil:
+		return s.Sia.Variant, s.Sia.Cap
+	case s.Rem != nil:
+		return s.Rem.Variant, s.Rem.Cap
+	case s.Stat != nil:
+		return s.Stat.Variant, s.Stat.Cap
+	case s.First != nil:
+		return s.First.Variant, s.First.Cap
+	case s.Churn != nil:
+		return s.Churn.Variant, s.Churn.Cap
+	}
+	return s.Variant, s.Cap
+}
+
+func emitSpec(e *vh.Env, s spec, unresolved *int) {
+	v, c := specVC(s)
+	class := s.Class
+	if class == "" {
+		class = s.Kind + "/" + v
+	}
+	guard(e, v, c, class, s.Kind == "seq", func() []vh.Case { return produce(s, unresolved) })
 }
 
 // fixed histories replayed first on every run: one witness per clause / per past slip of the model
@@ -768,7 +906,7 @@ func main() {
 			if s.Kind == "conc" {
 				s.Attempts = 20
 			}
-			if s.Kind == "burst" || s.Kind == "sia" || s.Kind == "rem" || s.Kind == "stat" {
+			if s.Kind == "burst" || s.Kind == "sia" || s.Kind == "rem" || s.Kind == "stat" || s.Kind == "churn" {
 				s.Attempts = 40 // the schedule is the runtime's: repeat the same programs
 			}
 			emitSpec(e, s, &unresolved)
@@ -777,9 +915,15 @@ func main() {
 		for _, s := range corpus() {
 			emitSpec(e, s, &unresolved)
 		}
-		nSeq := e.Scale(60, 700)    // per (variant, class)
-		nWide := e.Scale(45, 500)   // per (variant, route)
-		nConc := e.Scale(100, 1800) // per variant
+		scale := func(q, t int) int {
+			if e.Search {
+				return 4 * q // the violation search of a quick check must stay within minutes
+			}
+			return e.Scale(q, t)
+		}
+		nSeq := scale(60, 700)    // per (variant, class)
+		nWide := scale(45, 500)   // per (variant, route)
+		nConc := scale(100, 1800) // per variant
 		focus := strings.TrimSuffix(e.Focus, "/corpus")
 		boost := func(class string, n int) int {
 			if e.Search && focus != "" {
@@ -811,7 +955,9 @@ func main() {
 					}
 				}
 				for i, m := 0, boost("seq/"+v+"/"+class, n); i < m; i++ {
-					emitSpec(e, genSeq(e.Rnd, v, class, length()), &unresolved)
+					rnd, n := rand.New(rand.NewSource(e.Rnd.Int63())), length()
+					v, class := v, class
+					guard(e, v, 0, "seq/"+v+"/"+class, true, func() []vh.Case { return produce(genSeq(rnd, v, class, n), &unresolved) })
 				}
 			}
 			for _, xh := range []bool{false, true} {
@@ -828,7 +974,7 @@ func main() {
 			}
 		}
 		// same-key bursts, observed at quiescence
-		nBurst := e.Scale(36, 500) // rounds per (variant, single): each round = 8..16 goroutines x 24..79 keys
+		nBurst := scale(36, 500) // rounds per (variant, single): each round = 8..16 goroutines x 24..79 keys
 		for _, v := range []string{"std", "tiny"} {
 			for i, m := 0, boost("burst/"+v+"/single", nBurst); i < m; i++ {
 				b := genBurst(e.Rnd, v, false)
@@ -840,7 +986,7 @@ func main() {
 			}
 		}
 		// SetIfAbsent-only bursts: the first insert wins
-		nSia := e.Scale(32, 400)
+		nSia := scale(32, 400)
 		for _, v := range []string{"std", "tiny"} {
 			for i, m := 0, boost("sia/"+v, nSia); i < m; i++ {
 				b := genSia(e.Rnd, v)
@@ -848,7 +994,7 @@ func main() {
 			}
 		}
 		// concurrent SetAndGetRemoved, removed lists kept by the callers
-		nRem := e.Scale(16, 300)
+		nRem := scale(16, 300)
 		for _, v := range []string{"std", "tiny"} {
 			for i, m := 0, boost("rem/"+v, nRem); i < m; i++ {
 				b := genRem(e.Rnd, v)
@@ -856,16 +1002,31 @@ func main() {
 			}
 		}
 		// Stats() read concurrently with writers
-		nStat := e.Scale(12, 200)
+		nStat := scale(12, 200)
 		for _, v := range []string{"std", "tiny"} {
 			for i, m := 0, boost("stats/"+v, nStat); i < m; i++ {
 				b := genStat(e.Rnd, v)
 				emitSpec(e, spec{Kind: "stat", Stat: &b}, &unresolved)
 			}
 		}
+		// own-key churn
+		nChurn := scale(24, 400)
+		for _, v := range []string{"std", "tiny"} {
+			for i, m := 0, boost("churn/"+v+"/single", nChurn); i < m; i++ {
+				b := genChurn(e.Rnd, v, false)
+				emitSpec(e, spec{Kind: "churn", Churn: &b}, &unresolved)
+			}
+			for i, m := 0, boost("churn/"+v+"/wide", nChurn/3); i < m; i++ {
+				b := genChurn(e.Rnd, v, true)
+				emitSpec(e, spec{Kind: "churn", Churn: &b}, &unresolved)
+			}
+		}
+		e.Meta["churn_rounds"] = stat.churnRounds
+		e.Meta["units_abandoned_because_a_call_did_not_return"] = stat.hungUnits
+		e.Meta["generation_stopped_after_blocked_calls"] = aborted
 		// first touches of fresh wide caches: batches of trials
-		nFirst := e.Scale(6, 60)           // batches per (variant, route)
-		firstTrials := e.Scale(1500, 6000) // trials per batch
+		nFirst := scale(6, 60)           // batches per (variant, route)
+		firstTrials := scale(1500, 6000) // trials per batch
 		for _, v := range []string{"std", "tiny"} {
 			for _, xh := range []bool{false, true} {
 				route := "simple"
